@@ -149,6 +149,8 @@ def run(ctx):
     for k in (1, 2, 3):
         for combo in itertools.combinations_with_replacement(range(len(LINES)), k):
             lines = [LINES[i] for i in combo]
+            if k == 3 and sum(1 for l in lines if _expected_merge([l], unp) != {None}) < 2:
+                continue  # three lines of which at most one is a requirement at all: covered by the one- and two-line multisets
             exp = _expected_merge(lines, unp)
             results = {}
             for perm in set(itertools.permutations(lines)):
